@@ -113,6 +113,8 @@ pub struct RunResult {
     pub end: RunEnd,
     pub steps: u64,
     pub heap: Vec<Shape>,
+    /// for each heap entry, in creation order: how many bytes of output the program had produced when it was created
+    pub alloc_marks: Vec<usize>,
 }
 
 pub struct RunCfg {
@@ -153,6 +155,7 @@ pub fn run(program: &Program, cfg: &RunCfg) -> RunResult {
     let mut out = SimOutput { text: String::new(), fragments: 0, fail_at: cfg.fail_output_at };
     let mut steps = 0u64;
     let mut heap_shapes = Vec::new();
+    let mut alloc_marks: Vec<usize> = Vec::new();
     let r = catch(|| {
         let mut state = match State::from(program) {
             Ok(s) => s,
@@ -176,6 +179,9 @@ pub fn run(program: &Program, cfg: &RunCfg) -> RunResult {
                 end = RunEnd::Err(format!("{:#}", e));
                 break;
             }
+            while state.heap.dereference(&HeapIndex::from(alloc_marks.len())).is_ok() {
+                alloc_marks.push(out.text.len());
+            }
         }
         // enumerate the real heap: it is append-only, index order is creation order
         let mut i = 0usize;
@@ -189,7 +195,7 @@ pub fn run(program: &Program, cfg: &RunCfg) -> RunResult {
         Ok(e) => e,
         Err(p) => RunEnd::Panic(p),
     };
-    RunResult { output: out.text, end, steps, heap: heap_shapes }
+    RunResult { output: out.text, end, steps, heap: heap_shapes, alloc_marks }
 }
 
 fn shape_of(obj: &HeapObject) -> Shape {
